@@ -465,6 +465,11 @@ func bvbin(op string, a, b *Term) *Term {
 	}
 	zero := func(t *Term) bool { return t.Op == "bvconst" && t.C.Sign() == 0 }
 	ones := func(t *Term) bool { return t.Op == "bvconst" && t.C.Cmp(mask(w)) == 0 }
+	if op == "bvadd" || op == "bvsub" {
+		if r := linearCancel(op, a, b); r != nil {
+			return r
+		}
+	}
 	switch op {
 	case "bvadd", "bvor", "bvxor":
 		if zero(a) {
@@ -574,6 +579,98 @@ func bvbin(op string, a, b *Term) *Term {
 		}
 	}
 	if (op == "bvadd" || op == "bvmul" || op == "bvand" || op == "bvor" || op == "bvxor") && a.ID > b.ID {
+		a, b = b, a
+	}
+	return mk(op, a.S, "", nil, [2]int{}, a, b)
+}
+
+// linearCancel rewrites a±b when atoms cancel or constants merge:
+// (x + 2) - x = 2, (x + 1) + 1 = x + 2. It returns nil when the linear form
+// is no smaller than the operands (the term is then built as written).
+func linearCancel(op string, a, b *Term) *Term {
+	w := a.S.W
+	coef := map[*Term]*big.Int{}
+	var order []*Term
+	c := new(big.Int)
+	occ, consts := 0, 0
+	var walk func(t *Term, sign int64, depth int)
+	walk = func(t *Term, sign int64, depth int) {
+		switch {
+		case t.Op == "bvconst":
+			consts++
+			c.Add(c, new(big.Int).Mul(big.NewInt(sign), t.C))
+		case t.Op == "bvadd" && depth < 12:
+			walk(t.Args[0], sign, depth+1)
+			walk(t.Args[1], sign, depth+1)
+		case t.Op == "bvsub" && depth < 12:
+			walk(t.Args[0], sign, depth+1)
+			walk(t.Args[1], -sign, depth+1)
+		case t.Op == "bvneg" && depth < 12:
+			walk(t.Args[0], -sign, depth+1)
+		default:
+			occ++
+			if _, ok := coef[t]; !ok {
+				coef[t] = new(big.Int)
+				order = append(order, t)
+			}
+			coef[t].Add(coef[t], big.NewInt(sign))
+		}
+	}
+	walk(a, 1, 0)
+	if op == "bvadd" {
+		walk(b, 1, 0)
+	} else {
+		walk(b, -1, 0)
+	}
+	var pos, neg []*Term
+	left := 0
+	for _, t := range order {
+		k := norm(coef[t], w)
+		switch {
+		case k.Sign() == 0:
+		case k.Cmp(big.NewInt(1)) == 0:
+			pos = append(pos, t)
+			left++
+		case k.Cmp(mask(w)) == 0:
+			neg = append(neg, t)
+			left++
+		default:
+			return nil
+		}
+	}
+	if left >= occ && consts <= 1 {
+		return nil
+	}
+	cn := norm(c, w)
+	var r *Term
+	for _, t := range pos {
+		if r == nil {
+			r = t
+		} else {
+			r = mkbin("bvadd", r, t)
+		}
+	}
+	if r == nil {
+		if len(neg) == 0 {
+			return BVC(cn, w)
+		}
+		r = BVC(cn, w)
+		cn = new(big.Int)
+		if r.C.Sign() == 0 && len(neg) == 1 {
+			return BVNeg(neg[0])
+		}
+	}
+	for _, t := range neg {
+		r = mkbin("bvsub", r, t)
+	}
+	if cn.Sign() != 0 {
+		r = mkbin("bvadd", r, BVC(cn, w))
+	}
+	return r
+}
+
+func mkbin(op string, a, b *Term) *Term {
+	if op == "bvadd" && a.ID > b.ID {
 		a, b = b, a
 	}
 	return mk(op, a.S, "", nil, [2]int{}, a, b)
